@@ -959,6 +959,61 @@ impl<'lexer> Lexer<'lexer> {
   }
 }
 
+/// Read-only view of the token stream, used by the verification harness only.
+///
+/// Runs [Lexer::next_token] on `input` (after the start token) until the end of input, an undefined token,
+/// an error or `limit` tokens. Before reading the token number `i` the flags named by the bits of `flags[i]`
+/// are set the way the parser sets them (1 = unary tests, 2 = between, 4 = type name, 8 = till in).
+/// Every item is: token kind, texts of the semantic value, position after the token and the flags
+/// that are set after the token (2 = between, 4 = type name, 8 = till in).
+#[cfg(dmntk_verif)]
+pub fn verif_tokens(scope: &Scope, input: &str, flags: &[u8], limit: usize) -> Vec<(String, Vec<String>, usize, u8)> {
+  let mut lexer = Lexer::new(scope, TokenType::StartExpression, input);
+  let _ = lexer.next_token();
+  let mut tokens = vec![];
+  for index in 0..limit {
+    let requested = flags.get(index).copied().unwrap_or(0);
+    if requested & 1 != 0 {
+      lexer.set_unary_tests();
+    }
+    if requested & 2 != 0 {
+      lexer.set_between();
+    }
+    if requested & 4 != 0 {
+      lexer.set_type_name();
+    }
+    if requested & 8 != 0 {
+      lexer.set_till_in();
+    }
+    let result = lexer.next_token();
+    let state = (lexer.between as u8) * 2 + (lexer.type_name as u8) * 4 + (lexer.till_in as u8) * 8;
+    match result {
+      Ok((_, value)) => {
+        let (kind, texts, last) = match &value {
+          TokenValue::YyEof => ("YyEof".to_string(), vec![], true),
+          TokenValue::YyUndef => ("YyUndef".to_string(), vec![], true),
+          TokenValue::Boolean(b) => ("Boolean".to_string(), vec![b.to_string()], false),
+          TokenValue::BuiltInTypeName(name) => ("BuiltInTypeName".to_string(), vec![name.to_string()], false),
+          TokenValue::Name(name) => ("Name".to_string(), vec![name.to_string()], false),
+          TokenValue::NameDateTime(name) => ("NameDateTime".to_string(), vec![name.to_string()], false),
+          TokenValue::Numeric(before, after) => ("Numeric".to_string(), vec![before.clone(), after.clone()], false),
+          TokenValue::String(text) => ("String".to_string(), vec![text.clone()], false),
+          other => (format!("{:?}", other), vec![], false),
+        };
+        tokens.push((kind, texts, lexer.position, state));
+        if last {
+          break;
+        }
+      }
+      Err(_) => {
+        tokens.push(("Error".to_string(), vec![], lexer.position, state));
+        break;
+      }
+    }
+  }
+  tokens
+}
+
 /// Returns `true` when the specified character is a separator (white space equivalent).
 fn is_separator(ch: char) -> bool {
   matches!(ch, WS | '=' | '!' | '<' | '>' | '+' | '-' | '*' | '/' | '%' | '.' | ',' | ')' | '[' | ']' | '}')
